@@ -189,7 +189,7 @@ Lemma field_dec_merge : forall fp o ft c x, field_ok ft x = true ->
 Proof.
   intros fp o ft c x Hok H. destruct x; try (apply H; reflexivity).
   unfold field_ok in Hok. simpl in Hok. rewrite andb_true_r in Hok. apply negb_true_iff in Hok.
-  simpl. f_equal. apply field_nil_nonptr. intros e E. subst ft. discriminate.
+  unfold merge. simpl. f_equal. apply field_nil_nonptr. intros e E. subst ft. discriminate.
 Qed.
 
 (* ---- the theorem ---- *)
